@@ -407,5 +407,5 @@ Definition parse_model (fuel : nat) (s : str) : parse_res :=
         end
     end.
 
-Definition parse_fuel (s : str) : nat := 400 + 60 * length s.
+Definition parse_fuel (s : str) : nat := 1000 + 400 * length s.
 Definition parse_query (s : str) : parse_res := parse_model (parse_fuel s) s.
